@@ -177,7 +177,7 @@ trait SourceQueryDb: salsa::Database + zydeco_statics::query::TyckDb {
 #[derive(Clone)]
 pub struct CompilerSession {
     storage: Storage<Self>,
-    files: DashMap<PathBuf, SourceInput>,
+    files: Arc<DashMap<PathBuf, SourceInput>>,
     pending: std::sync::Arc<
         std::sync::Mutex<Option<std::sync::Arc<zydeco_statics::query::PendingParts>>>,
     >,
@@ -187,7 +187,7 @@ impl Default for CompilerSession {
     fn default() -> Self {
         Self {
             storage: Storage::default(),
-            files: DashMap::new(),
+            files: Arc::new(DashMap::new()),
             pending: std::sync::Arc::new(std::sync::Mutex::new(None)),
         }
     }
